@@ -566,6 +566,8 @@ def camera_cases(ctx, col, pp, torch, n):
             else:
                 pix = pr
             mp = max([1.0] + [abs(v) for p in pr + pix for v in p])
+            if mp > 1e100:
+                continue            # projection through a nearly zero depth: outside the exact route
             a_abs = Fraction(mp) / 2 ** 49 if not generic else Fraction(mp) / 2 ** 30
             if op == 6:
                 a_abs = a_abs * Fraction(4 * mp + 4)
